@@ -23,6 +23,8 @@ func (h *Handler6) StartHunt(addr packet.Addr) (packet.HuntStage, error) {
 	if addr.IP.Is6() && !addr.IP.IsLinkLocalUnicast() {
 		return packet.StageNoChange, nil
 	}
+	// keep a private copy: the caller may pass a view of its packet buffer (frame.SrcAddr)
+	addr.MAC = packet.CopyMAC(addr.MAC)
 	h.Lock()
 	if h.huntList.Index(addr.MAC) != -1 {
 		h.Unlock()
